@@ -352,6 +352,10 @@ def cases(tier):
         cs.append(Case("decode-synthetic-%s" % row[2], h_decode, {"idx": i, "synthetic": True}, width=128))
         cs.append(Case("inverse-synthetic-%s" % row[2], h_inverse, {"idx": i, "strlen": 0, "synthetic": True},
                        width=128))
+    # two decodes in one process with independent bytes (patterns computed once must not be reused wrongly)
+    for i, r in enumerate(MM.ROWS):
+        if r[5] <= 2 and r[7] in ("num", "fixed", "temp", "bin") and i % (4 if tier == "quick" else 1) == 0:
+            cs.append(Case("decode-twice-%s-%s" % (r[1], r[2]), h_decode, {"idx": i}, width=128, repeat=2))
     for i, r in enumerate(MM.ROWS):
         cs.append(Case("decode-%s-%s" % (r[1], r[2]), h_decode, {"idx": i}, width=128))
         if r[7] == "num":
